@@ -57,6 +57,42 @@ def run(ctx):
     subs = [s for s in g.stores_to(W, "in_count")]
     outs = [s for s in g.stores_to(W, "out_count")]
     bad = None
+    # the retire step may live in a helper (reset out_count, subtract it from in_count, return the result): every call
+    # of such a helper is a subtraction event of this function
+    helper_calls = []
+    for c in g.calls():
+        if c.callee and P.has_fn(c.callee) and c.callee not in ("mpsc_fifo_trypop", "cpu_relax"):
+            h = P.fn(c.callee)
+            hs = [s for s in h.stores_to(W, "in_count")]
+            if hs:
+                helper_calls.append((c, h, hs))
+    if helper_calls and not subs:
+        o2 = None
+        c0, h, hs = helper_calls[0]
+        hres = [s for s in h.stores_to(W, "out_count") if s.kind == "assign" and strip(s.value).cv == 0]
+        if len(hs) != 1 or hs[0].kind != "sync" or "sub_and_fetch" not in hs[0].node.callee or len(hres) != 1 or \
+                h.dominated_by(hs[0].node, nodeset([hres[0].node])) is not None:
+            bad = "the retire helper %s does not reset out_count before one atomic subtraction" % h.name
+        ispop = lambda n: n is pops[0] or (n.k == "BinaryOperator" and n.op == "=" and n.contains(pops[0]))
+        again = lambda n: n is pops[0]
+        for c, h_, hs_ in helper_calls:
+            for (oc, ic, popv) in ((0, 0, 0), (2, 2, 0), (1, 3, 0), (65536, 65536, 4096), (5, 9, 4096)):
+                atom = atom_from([(ispop, popv), (fld("out_count"), oc), (fld("in_count"), ic)])
+                r = reach(g, [c], atom, start=pops[0], barrier=again)
+                if r and not (popv == 0 and oc == ic):
+                    bad = bad or ("the consumed count is subtracted from in_count (call of %s at %s) although the worker has %s: in_count can drop to 0 "
+                                  "while this worker is still active, and the next push is told to start a second worker"
+                                  % (h_.name, c.loc, "just popped an item" if popv else "not seen out_count == in_count"))
+        if not bad:
+            # EMPTY only behind a zero result of the helper
+            for c, h_, hs_ in helper_calls:
+                for res in (0, 1):
+                    atom = atom_from([(ispop, 0), (fld("out_count"), 2), (fld("in_count"), 2), (lambda n, c=c: n is c, res)])
+                    for r in g.returns():
+                        if ret_const(g, r) == 0 and reach(g, [r], atom, start=pops[0], barrier=again) and res != 0:
+                            bad = bad or "EMPTY returned although the subtraction left work announced"
+        o.check(bad is None, "retire table (through helper %s)" % h.name, bad, site=g.loc, construct="work_queue_get_work")
+        return
     if len(pops) != 1 or len(subs) != 1 or subs[0].kind != "sync" or "sub_and_fetch" not in subs[0].node.callee:
         bad = "shape not recognised"
     else:
